@@ -22,7 +22,7 @@ UTC = datetime.timezone.utc
 PROPS = ("C11",)
 
 IDS = {"t1": "pkg.mod.T.test_é", "t2": "t2", "none": None}
-SEG = {"r": "0", "s": "ü", "c": "c", "d": "d"}
+SEG = {"r": "0", "s": "ü", "c": "c", "d": "d", "e": ""}
 REST = {
     "plain": {},
     "none": {},
@@ -395,6 +395,13 @@ ACTIONS = ["StartTestRun", "Status", "StopTestRun"]
 
 
 def run(tier, pid="C11"):
+    # "a missing timestamp filled with the current UTC time": run in a non-UTC local timezone, so that local
+    # wall-clock time mislabelled as UTC is nine hours off (POSIX TZ string, needs no tzdata)
+    import os
+    import time as _time
+
+    os.environ["TZ"] = "XST-9"
+    _time.tzset()
     use_repo()
     rep = Report(
         "C11",
